@@ -145,15 +145,35 @@ class SeqProp:
             cases.extend(ex)
         report.extra["corpus_cases"] = n_corpus
 
-        impl_outs = [self.safe_impl(c) for c in cases]
+        impl_outs = []
+        timeouts = 0
+        for c in cases:
+            io = self.safe_impl(c)
+            impl_outs.append(io)
+            if io and io[0] == "timeout" and all(x == "timeout" for x in io):
+                timeouts += 1
+                if timeouts >= 3:
+                    break  # the implementation no longer terminates on ordinary cases: three observations are enough
+        if len(impl_outs) < len(cases):
+            report.extra["cases_not_run_after_timeouts"] = len(cases) - len(impl_outs)
+            cases = cases[:len(impl_outs)]
         model_outs = self.run_model(cases)
 
         prop_fail = None  # (case, detail)
+        timeout_fail = None
         po_mismatch = None
         mo_mismatch = None
         for c, mo, io in zip(cases, model_outs, impl_outs):
             if "bad-op" in mo and not self.allow_bad_op:
                 raise HarnessError(f"{self.pid}: Lean driver rejected an op of a generated case: {c.ops[mo.index('bad-op')]}")
+            if io and all(x == "timeout" for x in io):
+                # every operation of every property terminates: a case the implementation does not finish is a failure
+                report.add_case(c, None)
+                report.count("result:timeout")
+                if timeout_fail is None:
+                    timeout_fail = (c, f"the implementation did not finish this case within {self.case_timeout:.0f} s "
+                                       f"(an operation does not terminate)")
+                continue
             report.add_case(c, self.key(c, io))
             self.histogram(report, c, io)
             report.traces_validated += 1
@@ -196,7 +216,10 @@ class SeqProp:
             tail = " no-failing-input-found" if f.kind != "property" else ""
             lines.append(f"VIOLATION property={self.pid} replay={path}{tail}")
 
-        if extra_fail is not None and prop_fail is None:
+        if prop_fail is None and timeout_fail is not None:
+            c, detail = timeout_fail  # reported as it is: shrinking a non-terminating case would cost a watchdog period per attempt
+            emit(Finding("property", c, detail, expected=self.run_model([c])[0], observed=["timeout"], signature=None))
+        elif extra_fail is not None and prop_fail is None:
             desc, d = extra_fail
             emit(Finding("property", Case([], desc, "oracle-only scenario"), d, signature=None))
         elif prop_fail is not None:
